@@ -7,7 +7,11 @@ C09 = importlib.import_module("checks.C09")
 C14 = importlib.import_module("checks.C14")
 N = treecorr.Node
 
+F12_DOC = (b'JSIGHT 0.3\n\nTYPE @testShortRecursion\n{\n  "testShortRecursion": @testShortRecursion, // {optional: true}\n  "testLongRecursion" : @testLongRecursion,\n'
+           b'  "testBothRecursions": @testShortRecursion | @t-stLongRecursion\n}\n\nTYPE @testLongRecursion\n{\n  "testShortRecursion": @testShortRecursion // {optional: true}\n}\n')
+
 ONCE_CRASHING = [
+    {"root.jst": F12_DOC},
     {"root.jst": b"("},
     {"root.jst": b"JSIGHT 0.3\n)\n("},
     {"root.jst": b"JSIGHT 0.3\nINCLUDE f.jst extra\n", "f.jst": b"TYPE @a any\n"},
